@@ -28,6 +28,7 @@ CONFIGS = {
                            cfg=['aes_force_soft', 'aes_compact', 'kuznyechik_backend="soft"', 'serpent_no_unroll']),
     'x64-alt2':       dict(target=None, features=[], cfg=['aes_compact', 'kuznyechik_backend="compact_soft"']),
     'x64-aesni-all':  dict(target=None, features=ALLF, cfg=[], cflags=['-Ctarget-feature=+aes,+ssse3']),
+    'x64-soft-aesni-all': dict(target=None, features=ALLF, cfg=['aes_force_soft'], cflags=['-Ctarget-feature=+aes,+ssse3']),
     # threefish without its `cipher` feature (inherent API only) but with zeroize
     'x64-tfnc-z':     dict(target=None, features=['zeroize'], cfg=[], no_default=True),
     'a64':            dict(target='aarch64-unknown-linux-gnu', features=[], cfg=[]),
@@ -77,7 +78,7 @@ def repo_hash():
 def tool_hash():
     h = hashlib.sha256()
     fs = glob.glob(os.path.join(VERIF, 'driver', 'src', '*.rs')) + [os.path.join(VERIF, 'driver', 'Cargo.toml')]
-    fs += [os.path.join(VERIF, 'roots', 'src', f) for f in ('lib.rs', 'extras.rs', 'extra_types.rs')]
+    fs += [os.path.join(VERIF, 'roots', 'src', f) for f in ('lib.rs', 'extras.rs', 'extra_types.rs', 'canary.rs')]
     fs += [os.path.join(VERIF, 'roots', 'Cargo.toml'), os.path.join(VERIF, 'analysis', 'gen_roots.py')]
     _sha_files(fs, h)
     return h.hexdigest()
